@@ -1,0 +1,12 @@
+//go:build verif
+// +build verif
+
+package fastgo
+
+import "github.com/intel/fastgo/internal/cpu"
+
+// VerifArchLevel reports the dispatch level in effect in this process.
+func VerifArchLevel() int { return cpu.ArchLevel }
+
+// VerifDetectedLevel reports the level CPUID detection gave before any override.
+func VerifDetectedLevel() int { return cpu.VerifDetectedLevel }
